@@ -9,7 +9,7 @@ import os, re, shutil, subprocess
 from bbox import Sandbox, Rng, hexs, HOST
 
 NAMES = ["a", "b.txt", "sp ace", "quo'te", "the 'final' draft", "''", "a'b'c.txt", "it\\'s", "x\\", "\\'\\'", 'dq"uote', "back\\slash", "dol$lar", "st*ar", "qm?ark", "-dash", "unié中",
-         "notes..old", "v1..v2.diff", "..hidden", "trail..", "new\nline", "tab\tname", "semi;colon", "amp&ersand", "paren(s)", "a.copia", "x.tmp", "[br]", "~tilde", "#hash", "%p", "$(echo x)", "`bt`", ".tmp", ".env", "prod.env"]
+         "notes..old", "v1..v2.diff", "..hidden", "trail..", "new\nline", "tab\tname", "semi;colon", "amp&ersand", "paren(s)", "a.copia", "x.tmp", "[br]", "~tilde", "#hash", "%p", "$(echo x)", "`bt`", ".tmp", ".env", "prod.env", "star", "stXXar", "qmaark", "[br", "b"]
 DIRS = ["", "d", "d/e", "sp dir", "q'd", "q'd'q", "d.d", "-x", ".tmp"]
 EXCL = ["*.tmp", "d", "d/*", "sp*", "*'*", "a", "?", "x.tmp/", "*\\*", "d/e/", "b.txt", "*.env", "*.tmp"]
 CONTENT = [b"", b"x", b"hello\n", b"A" * 1000, b"\x00\x01\x02", b"line1\nline2\n", bytes(range(256)) * 20]
@@ -446,6 +446,50 @@ def symlink_second_run_section(res, count):
                 res["violations"].append(("second-run-not-a-no-op", f"{direction}: source with a symlink to a regular file — the immediate second run planned {plan} (rc {rc2})", rep))
 
 
+def many_jobs_section(rng, res, count):
+    """C04 "any positive job count": 90 files to send with `--jobs 100`, 70 with `--jobs 65`, 80 with `--jobs 64` — local and push.
+    Exit 0 means every planned file arrived (seed C04-L: a worker pool capped at 64 lanes while the plan was dealt out in strides
+    of `jobs`: the lanes beyond the cap were never run, nor counted as failed)."""
+    for direction in ("local", "push"):
+        for nfiles, jobs in ((90, 100), (70, 65), (80, 64)):
+            src = {f"d{i % 5}/f{i:03d}.txt": (b"content %d\n" % i, 1_650_000_000 + i, 0) for i in range(nfiles)}
+            with Sandbox("C04mj") as sb:
+                rc, out, err, s1, d1, sroot, droot = run_case(sb, rng, direction, src, {}, ["--jobs", str(jobs)], count)
+                count(f"many-jobs/{direction}")
+                missing = sorted(k for k, v in src.items() if d1.get(k, (None, None))[:2] != v[:2])
+                rep = {"direction": direction, "files": nfiles, "jobs": jobs, "rc": rc, "stdout": out[-200:], "stderr": err[-200:], "undelivered": len(missing), "first": missing[:3]}
+                if rc == 0 and missing:
+                    res["violations"].append(("exit-0-but-planned-file-not-delivered", f"{direction}, {nfiles} files, --jobs {jobs}: copia exited 0 with {len(missing)} planned files undelivered (e.g. {missing[:2]})", rep))
+    return 0
+
+
+def hardlinked_destination_section(res, count):
+    """C14: all regular files — two source files with the same bytes and different mtimes; in the destination the two names are hard
+    links of one file (what dedup tools leave). After one successful run the same command again must send nothing (seed C14-L:
+    an existing destination with the right bytes was re-stamped IN PLACE — one inode cannot carry two mtimes, every run flips it)."""
+    with Sandbox("C14hl") as sb:
+        sroot, droot = sb.path("src"), sb.path("dst")
+        os.makedirs(os.path.join(sroot, "sub")); os.makedirs(os.path.join(droot, "sub"))
+        body = b"identical bytes under two names " * 30
+        open(os.path.join(sroot, "a.bin"), "wb").write(body); os.utime(os.path.join(sroot, "a.bin"), (1_650_000_000, 1_650_000_000))
+        open(os.path.join(sroot, "sub", "b.bin"), "wb").write(body); os.utime(os.path.join(sroot, "sub", "b.bin"), (1_600_000_000, 1_600_000_000))
+        open(os.path.join(droot, "a.bin"), "wb").write(body); os.utime(os.path.join(droot, "a.bin"), (1_500_000_000, 1_500_000_000))
+        os.link(os.path.join(droot, "a.bin"), os.path.join(droot, "sub", "b.bin"))
+        rc1, o1, e1 = sb.run(["sync", "-r", sroot, droot], timeout=60)
+        plans = []
+        for _ in range(2):
+            rc2, o2, e2 = sb.run(["sync", "-r", sroot, droot], timeout=60)
+            txt = o2.decode("utf-8", "replace") + e2.decode("utf-8", "replace")
+            plans.append(([ln for ln in txt.splitlines() if ln.startswith("Plan:")], rc2))
+        count("hardlinked-destination")
+        mt = {n: int(os.stat(os.path.join(droot, n)).st_mtime) for n in ("a.bin", "sub/b.bin")}
+        rep = {"rc1": rc1, "second_and_third_run": plans, "destination_mtimes": mt}
+        if rc1 == 0 and any(rc != 0 or not pl or not pl[0].startswith("Plan: 0 to transfer") for pl, rc in plans):
+            res["violations"].append(("second-run-not-a-no-op", f"destination names hard-linked to one file: after a successful run the same command planned {plans}", rep))
+        if rc1 == 0 and mt != {"a.bin": 1_650_000_000, "sub/b.bin": 1_600_000_000}:
+            res["violations"].append(("delivered-file-without-source-mtime", f"after the runs the destination mtimes are {mt}", rep))
+
+
 def location_section(rng, thorough, rundir, model_run, res, count):
     """`FileLocation::parse` observed through the real CLI: `sync -r --dry-run SRC X` either lists X over (stand-in)
     ssh — the stub logs the host and the command, whose `cd $'…'` argument is the remote path — or treats X as a
@@ -708,11 +752,13 @@ def run(pid, tier, seed, rundir, model_run):
         remote_failure_section(rng, thorough, res, count)
         deep_tree_section(rng, res, count)
         unlistable_dir_section(rng, res, count)
+        many_jobs_section(rng, res, count)
         split_listing_section(rng, thorough, res, count)
     if pid == "C15":
         remote_failure_section(rng, thorough, res, count)      # (for its excluded-file-vs-directory part: excludes protect)
     if pid == "C14":
         symlink_second_run_section(res, count)
+        hardlinked_destination_section(res, count)
     if pid == "C19":
         split_listing_section(rng, thorough, res, count)       # the listing parser seen through the CLI: pieces, pauses
     if ndis:
